@@ -6,7 +6,9 @@ package c19
 // Aggressive), so an unscoped CD=0 request makes the cache publish the RFC 8020 cut; whether a later request was
 // answered from it is read off the handler's call counter.  Requests enter message-born and wire-born
 // (Chain.ResetWire), with the ECS forwarding policy off (edns strips the option: only the marker remembers it)
-// and on.
+// and on.  The client's subnet option comes in four shapes (EcsDenial.tla Shapes): a real IPv4 / IPv6 prefix, family 1
+// with source prefix 0, and the RFC 7871 empty option (family 0, prefix 0, no address); each is "a query that carried
+// ECS", whichever parser (the library's for message-born, Request.parseWireOPT for wire-born requests) reads it.
 
 import (
 	"context"
@@ -28,10 +30,12 @@ import (
 type denStep struct {
 	Kind string `json:"kind"` // plain | ecs | cd | ecscd
 	Born string `json:"born"` // msg | wire
-	DO   bool   `json:"do"`
-	AD   bool   `json:"ad"`
-	Out  string `json:"out"`  // model: down | synth
-	Cut  bool   `json:"cut"`  // model: shared cut exists BEFORE the step
+	// Shape of the subnet option of an ecs / ecscd step: v4 | v6 | zero | empty ("" = v4)
+	Shape string `json:"shape"`
+	DO    bool   `json:"do"`
+	AD    bool   `json:"ad"`
+	Out   string `json:"out"` // model: down | synth
+	Cut   bool   `json:"cut"` // model: shared cut exists BEFORE the step
 }
 
 type denBehaviour struct {
@@ -69,6 +73,27 @@ func denProof(qname string) *dns.Msg {
 	return m
 }
 
+// denSubnet is the client-subnet option of the given shape (EcsDenial.tla Shapes).
+func denSubnet(shape string) *dns.EDNS0_SUBNET {
+	switch shape {
+	case "v6":
+		return &dns.EDNS0_SUBNET{Code: dns.EDNS0SUBNET, Family: 2, SourceNetmask: 56, Address: net.ParseIP("2001:db8:77::")}
+	case "zero":
+		return &dns.EDNS0_SUBNET{Code: dns.EDNS0SUBNET, Family: 1, SourceNetmask: 0, Address: net.IPv4zero.To4()}
+	case "empty":
+		return &dns.EDNS0_SUBNET{Code: dns.EDNS0SUBNET, Family: 0, SourceNetmask: 0}
+	}
+	return &dns.EDNS0_SUBNET{Code: dns.EDNS0SUBNET, Family: 1, SourceNetmask: 24, Address: net.IPv4(203, 0, 113, 0).To4()}
+}
+
+// denTag names a step in histories and violation keys: the kind, plus the option's shape when it is not the v4 prefix.
+func denTag(st denStep) string {
+	if (st.Kind == "ecs" || st.Kind == "ecscd") && st.Shape != "" && st.Shape != "v4" {
+		return st.Kind + "-" + st.Shape
+	}
+	return st.Kind
+}
+
 func TestEcsDenialBypass(t *testing.T) {
 	var in denInput
 	vh.Input(t, &in)
@@ -104,8 +129,7 @@ func TestEcsDenialBypass(t *testing.T) {
 				q.AuthenticatedData = st.AD
 				if st.Kind == "ecs" || st.Kind == "ecscd" {
 					o := q.IsEdns0()
-					o.Option = append(o.Option, &dns.EDNS0_SUBNET{Code: dns.EDNS0SUBNET, Family: 1, SourceNetmask: 24,
-						Address: net.IPv4(203, 0, 113, 0).To4()})
+					o.Option = append(o.Option, denSubnet(st.Shape))
 				}
 				q.CheckingDisabled = st.Kind == "cd" || st.Kind == "ecscd"
 				w := mock.NewWriter("udp", "203.0.113.5:53000")
@@ -120,7 +144,7 @@ func TestEcsDenialBypass(t *testing.T) {
 					}
 					req := new(middleware.Request)
 					if !req.ParseWire(raw, time.Now(), nil) {
-						res.Skip("ParseWire refused an ordinary query (%s)", st.Kind)
+						res.Skip("ParseWire refused an ordinary query (%s)", denTag(st))
 						continue
 					}
 					ch.ResetWire(w, req)
@@ -131,7 +155,7 @@ func TestEcsDenialBypass(t *testing.T) {
 				ch.Next(ctx)
 				ch.Finish()
 				reached := calls.Load() > before
-				hist = append(hist, fmt.Sprintf("%s/%s->%s", st.Kind, st.Born, map[bool]string{true: "down", false: "synth"}[reached]))
+				hist = append(hist, fmt.Sprintf("%s/%s->%s", denTag(st), st.Born, map[bool]string{true: "down", false: "synth"}[reached]))
 				res.Case(fmt.Sprintf("den:%s:%v", policy, hist))
 				res.Count("steps", 1)
 				violate := func(clause, what string) {
@@ -139,12 +163,12 @@ func TestEcsDenialBypass(t *testing.T) {
 						res.DriftNote("%s (judged by another check): %s", clause, what)
 						return
 					}
-					res.Violate("c19/denial/"+clause+"/"+policy+"/"+st.Kind+"/"+st.Born,
+					res.Violate("c19/denial/"+clause+"/"+policy+"/"+denTag(st)+"/"+st.Born,
 						fmt.Sprintf("[ecs forwarding %s] %v: %s", policy, hist, what),
 						map[string]any{"driver": "ecs-denial", "policy": policy, "steps": b.Steps[:si+1], "history": hist})
 				}
 				if !w.Written() {
-					res.DriftNote("no reply for %s/%s", st.Kind, st.Born)
+					res.DriftNote("no reply for %s/%s", denTag(st), st.Born)
 					continue
 				}
 				if rm := w.Msg(); rm != nil && rm.AuthenticatedData && (q.CheckingDisabled || (!st.DO && !st.AD)) {
@@ -154,12 +178,15 @@ func TestEcsDenialBypass(t *testing.T) {
 				bypass := st.Kind != "plain"
 				switch {
 				case bypass && !reached:
-					violate("consumed", "a query that carried "+st.Kind+" was answered from shared synthesised denial state (the resolver position was not reached)")
+					violate("consumed", "a query that carried "+denTag(st)+" was answered from shared synthesised denial state (the resolver position was not reached)")
 				case !bypass && !reached && !modelCut:
 					// a plain query answered from a cut nobody but an ECS/CD tree can have created
 					violate("created", "a shared subtree cut exists although only ECS- or CD-carrying queries have been resolved so far: one of them created it")
 				case !bypass && reached && modelCut:
 					res.DriftNote("plain query below an existing cut reached the resolver position (%v)", hist)
+				}
+				if bypass {
+					res.Count("carried/"+denTag(st)+"/"+st.Born, 1)
 				}
 				if !bypass {
 					if !reached {
